@@ -1,0 +1,74 @@
+//go:build verif
+// +build verif
+
+// Verification-only accessors (build tag `verif`). They only call / read existing code and state of
+// this package; nothing here is compiled into a normal build.
+package proc
+
+import (
+	"github.com/polynetwork/poly/common"
+	tx "github.com/polynetwork/poly/core/types"
+	tc "github.com/polynetwork/poly/txnpool/common"
+)
+
+// VerifIsValidSender runs the sender-admission rule of the tx actor (TxActor.isValidSender).
+func VerifIsValidSender(txn *tx.Transaction) error {
+	return (&TxActor{}).isValidSender(txn)
+}
+
+// VerifUpdatePermitted calls updatePermittedAddrMap. With force the one-minute rate limit is
+// lifted first (lastTime = 0), which is what a node sees after a minute has passed.
+func VerifUpdatePermitted(force bool) error {
+	if force {
+		lock.Lock()
+		lastTime = 0
+		lock.Unlock()
+	}
+	return updatePermittedAddrMap()
+}
+
+// VerifResetPermitted puts the permitted-address cache into its process-start state.
+func VerifResetPermitted() {
+	lock.Lock()
+	permittedAddrMap = make(map[common.Address]bool)
+	lastTime = 0
+	lock.Unlock()
+}
+
+// VerifPermitted returns a copy of the permitted-address cache.
+func VerifPermitted() map[common.Address]bool {
+	lock.RLock()
+	defer lock.RUnlock()
+	out := make(map[common.Address]bool, len(permittedAddrMap))
+	for k, v := range permittedAddrMap {
+		out[k] = v
+	}
+	return out
+}
+
+// VerifPool exposes the server's verified-transaction pool (read-only use by monitors).
+func (s *TXPoolServer) VerifPool() *tc.TXPool { return s.txPool }
+
+// VerifPending lists the hashes the server currently holds as pending (being verified).
+func (s *TXPoolServer) VerifPending() []common.Uint256 {
+	txs := s.getPendingTxs(false)
+	out := make([]common.Uint256, 0, len(txs))
+	for _, t := range txs {
+		out = append(out, t.Hash())
+	}
+	return out
+}
+
+// VerifTxCount is getTxCount: [pooled, pending].
+func (s *TXPoolServer) VerifTxCount() []uint32 { return s.getTxCount() }
+
+// VerifWorkerPending is the number of transactions held in the workers' own pending lists.
+func (s *TXPoolServer) VerifWorkerPending() int {
+	n := 0
+	for i := range s.workers {
+		s.workers[i].mu.RLock()
+		n += len(s.workers[i].pendingTxList)
+		s.workers[i].mu.RUnlock()
+	}
+	return n
+}
